@@ -146,9 +146,14 @@ static int m_vsnprintf(char *buf, size_t cap, const char *fmt, va_list ap)
 		}
 		break;
 	    }
+#ifdef VERIF_CBMC
+	    /* the general path needs 64-bit dividers, which stall the SAT solver: the model is bounded instead */
+	    __CPROVER_assert(0, "harness: libc model prints integers below 100000 only");
+#else
 	    char tmp[20]; int k = 0;
 	    do { tmp[k++] = (char)('0' + u % 10); u /= 10; } while (u && k < 20);
 	    while (k) { k--; M_EMIT(tmp[k]); }
+#endif
 	    break;
 	}
 	default: return -1;
